@@ -5,11 +5,19 @@ print('WHY:',r.get('why')); s=r['in']; out=r['impl']
 def brief(p):
     d={'name':p['name'],'labels':p.get('labels')}
     if p.get('namespace'): d['namespace']=p['namespace']
+    if p.get('owner'): d['owner']=p['owner']
     for k in ('nodeSelector','required','tolerations','affinity','spreads'):
         if p.get(k): d[k]=p[k]
     return d
 # (anti-)affinity terms print with their namespaces / namespaceSelector ({} = all namespaces) / matchLabelKeys / matchExprs
 if s.get('namespaces'): print('NAMESPACES',json.dumps(s['namespaces']))
+# API faults of the pass (the Nth List of a kind fails once) and those that fired; cluster-default spread constraints with the
+# Services / ReplicaSets the per-pod selector is deduced from (pods print their controller as "owner")
+if s.get('listFaults'): print('LIST FAULTS',json.dumps(s['listFaults']),'fired',out.get('faults'))
+if out.get('err'): print('PASS ERROR',out.get('err'))
+if s.get('defaultSpreads'):
+    print('DEFAULT SPREADS',json.dumps([{k:v for k,v in d.items() if v is not None} for d in s['defaultSpreads']]))
+    print('  SERVICES',json.dumps(s.get('services'))); print('  REPLICASETS',json.dumps(s.get('replicaSets')))
 print('PENDING'); 
 for p in s['pods']: print('  ',json.dumps(brief(p)))
 print('NODES')
